@@ -39,7 +39,7 @@ PROPS = {
     "C09": dict(scen=[("core", "modes", True), ("hooked", "bestmode", False)], mc=mc_join(PIPE, LEMMAS),
                 invariants="AutoModeCompactInv (MC), AutoModeCompact/BestMode (TV), EncodeLemmas"),
     "C10": dict(scen=[("core", "total", True)], mc=PIPE, invariants="OutcomeTotal (MC), Panic/Timeout outcomes match no action (TV)"),
-    "C11": dict(scen=[("hooked", "candidates", False), ("core", "candgroups", True)], mc=mc_join(MSEL, PIPE), apalache=True,
+    "C11": dict(scen=[("hooked", "candidates", False), ("core", "candgroups", True)], mc=mc_join(MSEL, PIPE), apalache=["MaskSelect"],
                 invariants="MaskMinimalInv (MC_Pipeline), Minimal/IndInv (MC_MaskSelect, Apalache), chosen in argmin of Penalty over recorded candidates (TV)"),
     "C15": dict(scen=[("core", "cells", True), ("hooked", "maskop", False)], mc=mc_join(PIPE, LEMMAS),
                 invariants="LabelsExact, DataLabelCount (TV), FunctionPatternsInv (MC), LayoutLemmas"),
@@ -55,8 +55,8 @@ PROPS.update({
                 invariants="HavocExact, TypeOK (MC_Wasm, GEN); WasmNeverTraps, WasmEqualsNative = Render predicates on NativeOf(W_After(program)) + string equality with the native output (TV)"),
     "C18": dict(scen=[("core", "frames", True)], mc=mcq("MC_Render"),
                 invariants="FrameDefault, FrameImageCentred, monotone frame side (FrameSweep), FrameOverrides (TV)"),
-    "C19": dict(scen=[("core", "fileio", True)], mc={"quick": [], "thorough": []},
-                invariants="FileAllOrError (MC_FileIO, GEN -> replay), F_Run(fault, AbsOff(limit, len)) = observed return (TV)"),
+    "C19": dict(scen=[("core", "fileio", True)], mc={"quick": [], "thorough": []}, apalache=["FileInd"],
+                invariants="FileAllOrError (MC_FileIO, GEN -> replay), F_Run(fault, AbsOff(limit, len)) = observed return (TV); FileInd: inductive invariant for any number of chunks (Apalache)"),
 })
 # scenarios whose programs / behaviours are generated by TLC from a machine of the specification (GEN -> replay -> TV)
 GEN = {"fileio": ("FileIO.tla", "MC_FileIO.cfg", False), "wasm": ("MC_Wasm.tla", "MC_Wasm_{tier}.cfg", True),
@@ -174,28 +174,50 @@ def write_evidence(pid, tier, seed, level, coverage, assumptions, wall, violatio
         json.dump(ev, f, indent=1)
 
 
-APALACHE_OBLIGATIONS = [("Init => IndInv", ["--init=Init", "--inv=IndInv", "--length=0"]),
-                        ("IndInv /\\ Next => IndInv'", ["--init=IndInit", "--inv=IndInv", "--length=1"]),
-                        ("IndInv => Minimal", ["--init=IndInit", "--inv=Minimal", "--length=0"])]
+# inductive invariants discharged by Apalache: (module, files to copy, extra arguments, obligations)
+APALACHE = {
+    "MaskSelect": ("MaskSelect.tla", ["MaskSelect.tla"], [],
+                   [("Init => IndInv", ["--init=Init", "--inv=IndInv", "--length=0"]),
+                    ("IndInv /\\ Next => IndInv'", ["--init=IndInit", "--inv=IndInv", "--length=1"]),
+                    ("IndInv => Minimal", ["--init=IndInit", "--inv=Minimal", "--length=0"])]),
+    "FileInd": ("FileInd.tla", ["FileInd.tla", "FileOps.tla"], ["--cinit=ConstInit"],
+                [("Init => IndInv (any L >= 1)", ["--init=Init", "--inv=IndInv", "--length=0"]),
+                 ("IndInv /\\ Next => IndInv'", ["--init=IndInit", "--inv=IndInv", "--length=1"]),
+                 ("IndInv => FileAllOrError", ["--init=IndInit", "--inv=FileAllOrError", "--length=0"])]),
+}
 
 
-def run_apalache(wd):
-    """Inductive invariant of the selection loop for unbounded scores.  Reads nothing from /repo: failure = tool error."""
-    import shutil, subprocess
-    d = os.path.join(wd, "apalache")
+def run_apalache(wd, which, specdir=None):
+    """Reads nothing from /repo: a failure is a tool error.  The result is a pure function of the copied modules (memoised)."""
+    import shutil
+    module, files, extra, obligations = APALACHE[which]
+    specdir = specdir or runner.SPEC
+    h = hashlib.sha256()
+    for f in files:
+        h.update(open(os.path.join(specdir, f), "rb").read())
+    cpath = os.path.join(WORK, "cache", f"apalache_{which}_{h.hexdigest()}.json")
+    if specdir == runner.SPEC and os.path.exists(cpath) and not os.environ.get("VERIF_NO_CACHE"):
+        log(f"[apalache] {which}: result of the identical modules reused")
+        return json.load(open(cpath))
+    d = os.path.join(wd, "apalache_" + which)
     shutil.rmtree(d, ignore_errors=True)
     os.makedirs(d)
-    shutil.copy(os.path.join(runner.SPEC, "MaskSelect.tla"), d)
+    for f in files:
+        shutil.copy(os.path.join(specdir, f), d)
     res = []
     t0 = time.time()
-    for name, args in APALACHE_OBLIGATIONS:
-        rc, out = runner.sh(["apalache-mc", "check", *args, f"--out-dir={d}/out", "MaskSelect.tla"], 600, cwd=d, env={"JAVA_TOOL_OPTIONS": "-Xmx4g"})
+    for name, args in obligations:
+        rc, out = runner.sh(["apalache-mc", "check", *extra, *args, f"--out-dir={d}/out", module], 900, cwd=d, env={"JAVA_TOOL_OPTIONS": "-Xmx4g"})
         ok = rc == 0 and "EXITCODE: OK" in out
         if not ok:
-            raise ToolError(f"Apalache did not discharge '{name}' (rc={rc}):\n" + "\n".join(out.splitlines()[-15:]))
+            shutil.rmtree(d, ignore_errors=True)
+            raise ToolError(f"Apalache did not discharge '{name}' of {module} (rc={rc}):\n" + "\n".join(out.splitlines()[-15:]))
         res.append(name)
     shutil.rmtree(d, ignore_errors=True)
-    log(f"[apalache] {len(res)} obligations discharged in {time.time()-t0:.1f}s")
+    log(f"[apalache] {which}: {len(res)} obligations discharged in {time.time()-t0:.1f}s")
+    if specdir == runner.SPEC:
+        os.makedirs(os.path.dirname(cpath), exist_ok=True)
+        json.dump(res, open(cpath, "w"))
     return res
 
 
@@ -215,9 +237,9 @@ def run_property(pid, tier, seed, replay=None, spec=None):
             mc_trans += r["states"]
             mc_runs.append({"module": mod, "config": cfg, "distinct_states": r["distinct"], "states_generated": r["states"], "wall_s": round(r["wall"], 1),
                             "reused_for_identical_specification": bool(r.get("cached"))})
-        if spec.get("apalache"):
-            obl = run_apalache(wd)
-            mc_runs.append({"module": "MaskSelect.tla", "checker": "apalache-mc", "obligations_discharged": obl})
+        for which in spec.get("apalache", []):
+            obl = run_apalache(wd, which)
+            mc_runs.append({"module": APALACHE[which][0], "checker": "apalache-mc", "obligations_discharged": obl})
     # 2. drive the implementation
     all_lines = []
     tv_total = {"events": 0, "diags": [], "notes": [], "wall": 0.0, "states": 0, "cached": 0}
